@@ -121,7 +121,20 @@ func vfRunScenarios(r *vfev.Report, scenarios []vfScenario) {
 }
 
 // vfStatusViolations maps abnormal endings of the system under test to violations.
+// vfLocksetViolations: shared data touched without its lock (C14, reported by whichever check runs the code).
+func vfLocksetViolations(res vsched.Result) []vfXViolation {
+	var out []vfXViolation
+	for _, l := range res.Lockset {
+		key := strings.NewReplacer(" (", ":", ") at ", "@", " ", "").Replace(l)
+		out = append(out, vfXViolation{Key: "C14:unprotected-access:" + key, What: "shared data touched without holding its lock: " + l})
+	}
+	return out
+}
+
 func vfStatusViolations(res vsched.Result) []vfXViolation {
+	if v := vfLocksetViolations(res); len(v) > 0 && res.Status == "ok" {
+		return v
+	}
 	switch res.Status {
 	case "panic":
 		return []vfXViolation{{Key: "panic:" + vfPanicSite(res.Detail), What: "server goroutine panicked: " + vfFirstLines(res.Detail, 14)}}
